@@ -346,7 +346,10 @@ GAPS:
     constructor, which ACCEPTS it — `URL("http://[v1.[x]:80")` (stores "v1.[x:80", caches raw_host "1.[",
     `.with_port(81)` has explicit_port None).  So "with_port(p) sets any valid p" is FALSE on malformed-bracket
     authorities (same root as KNOWN FINDINGS F-C03-bracket / F-C11-bracket), reachable WITHOUT encoded=True (MODEL-level
-    computation; no probe row of the real library is cited).  STILL OPEN: that (E2) authorities are stored only through
+    computation; no probe row of the real library is cited).  ADDED: the malformed-bracket family now has a C17 entry of
+    its own in KNOWN_FINDINGS.jsonl, F-C17-bracket (witness URL('p://[[:]:1/r').with_scheme('x'): the constructor's
+    pre-computed explicit_port is 1, after the derivation — which drops the cache — explicit_port reads None from the
+    stored authority: cache and stored text disagree, item 8 (c)); no theorem of this layer states that witness.  STILL OPEN: that (E2) authorities are stored only through
     encoded=True is not a theorem; when `net e u` raises (unparsable stored port text) the views raise too
     (C17_headline_with_port_exact, second part) and nothing more is said.
  7. (new) Side conditions of the theorems that close 1(b).  `AuthInput` / `BuildNetOK` cover ASCII hosts of the
@@ -380,8 +383,8 @@ GAPS:
     C17_headline_pyint_spec is relative to it.  It is spelled out in C17_headline_pyint_grammar_def.  (b) `pyStrip`,
     `pyIntCore`, `EdgeFree` are definitional views of the model's own `pyIntAscii` (`C17_pyInt_core` is `rfl`).  (c) The
     general layer is in terms of `net e u`: for a URL WITH a cache these are the CACHED components — the theorems say
-    nothing about whether the cache agrees with the stored text (C09; F-C09-bracket / F-C11-bracket are where it does
-    not).  (d) `EncTrue.GoodHost` / "raw host not of the shape '[' without ':'" is a hypothesis on the components, not
+    nothing about whether the cache agrees with the stored text (C09; F-C09-bracket / F-C11-bracket / F-C17-bracket are
+    where it does not).  (d) `EncTrue.GoodHost` / "raw host not of the shape '[' without ':'" is a hypothesis on the components, not
     on the input of the entry point; by C17_headline_with_port_readback_counterexample it can fail for an input the
     auto-encoding constructor ACCEPTS.  (e) The Python-level instance theorems are computed with `Oracles.empty` (ASCII
     inputs), on both backends where stated; they are examples.  (f) The IDN theorem needs the assumption `IdnaSaneAt`
